@@ -35,6 +35,18 @@ DECLS = {
     # B and Bp generate source of exactly the same length (the struct format differs: >HB vs >BH)
     "B": "    a = Int(2)\n    b = Int(1)\n",
     "Bp": "    a = Int(1)\n    b = Int(2)\n",
+    # H and Hp: the same fields, written the same way; they differ only in the hooks their descriptor DESC brings
+    # (before-pack only / before-pack and after-unpack), i.e. in the code generated AROUND the field blocks
+    "H": "    a = Int(1).describe(DESC)\n    b = Int(1)\n",
+    "Hp": "    a = Int(1).describe(DESC)\n    b = Int(1)\n",
+}
+PRELUDE = {
+    "H": "from bisturi.descriptor import Auto\nDESC = Auto(lambda pkt: 7)\n",
+    "Hp": ("from bisturi.descriptor import Auto\n"
+           "class Stamp(Auto):\n"
+           "    def sync_after_unpack(self, instance):\n"
+           "        setattr(instance, self.real_field_name, 9)\n"
+           "DESC = Stamp(lambda pkt: 7)\n"),
 }
 OPTS = {
     "default": "{'annotate': False}",
@@ -46,8 +58,8 @@ PROBE = bytes([1, 2, 3, 4, 5, 6])
 
 
 def source(decl, opts="default"):
-    return ("from bisturi.packet import Packet\nfrom bisturi.field import Int, Data\n\n"
-            "class X(Packet):\n    __bisturi__ = %s\n%s" % (OPTS[opts], DECLS[decl]))
+    return ("from bisturi.packet import Packet\nfrom bisturi.field import Int, Data\n%s\n"
+            "class X(Packet):\n    __bisturi__ = %s\n%s" % (PRELUDE.get(decl, ""), OPTS[opts], DECLS[decl]))
 
 
 def behaviour(cls):
